@@ -128,20 +128,20 @@ def _rewrite_block(stmts: list) -> list:
                     out.append(ast.copy_location(ast.Return(value=ast.fix_missing_locations(ast.copy_location(call, s))), s))
                     i += 2
                     continue
-                # F: flag search
-                prev = out[-1] if out else None
+                # F: flag search  (the value before the loop is whatever the name held: `v = V if any(..) else v`)
                 if cond is not None and tail and isinstance(tail[0], ast.Assign) and len(tail[0].targets) == 1 \
-                        and isinstance(tail[0].targets[0], ast.Name) and isinstance(prev, ast.Assign) and len(prev.targets) == 1 \
-                        and isinstance(prev.targets[0], ast.Name) and prev.targets[0].id == tail[0].targets[0].id:
+                        and isinstance(tail[0].targets[0], ast.Name):
+                    vn = tail[0].targets[0].id
                     v = _sub(tail[0].value, env)
                     rest = tail[1:]
                     ends = len(rest) == 1 and isinstance(rest[0], ast.Break)
                     const_no_break = not rest and isinstance(v, ast.Constant)
-                    if (ends or const_no_break) and not (_names_in(v) & tn):
+                    if (ends or const_no_break) and not (_names_in(v) & tn) and vn not in tn and vn not in _names_in(cond) \
+                            and not any(vn in _names_in(g) for g in guards) and vn not in _names_in(s.iter):
                         anyc = ast.Call(func=ast.Name(id="any", ctx=ast.Load()), args=[_gen(cond, s.target, s.iter, guards)], keywords=[])
-                        new = ast.Assign(targets=[ast.Name(id=prev.targets[0].id, ctx=ast.Store())],
-                                         value=ast.IfExp(test=anyc, body=v, orelse=copy.deepcopy(prev.value)), lineno=s.lineno)
-                        out[-1] = ast.fix_missing_locations(ast.copy_location(new, s))
+                        new = ast.Assign(targets=[ast.Name(id=vn, ctx=ast.Store())],
+                                         value=ast.IfExp(test=anyc, body=v, orelse=ast.Name(id=vn, ctx=ast.Load())), lineno=s.lineno)
+                        out.append(ast.fix_missing_locations(ast.copy_location(new, s)))
                         i += 1
                         continue
                 # C: collection
